@@ -6,14 +6,18 @@
        and the error-suppression flag of the region is on (so value checks do not raise) -- the model's region
        flag is [BOr ignore (cond = 0)] by definition of [new_guard];
    and, from Proofs/Frame.v, the region leaves no trace in the globals on either exit (C08).
-   PARTIAL: that EVERY gadget's run-time checks are disabled by the region flag and that values/raises under a
+   Inert at the level of the model's gadgets (Proofs/NoRaiseGuarded.v, the C07_no_error_under_a_false_guard_ theorems): inside a
+   region with error suppression on, the multiplication, assert_zero, bit decomposition, non-negativity / sign test (so <, <=, >,
+   >=), assert_positive, assert_lt/le/gt/ge, assert_eq gadgets do NOT raise, for ALL operand values, in or out of their domain
+   (total-correctness calculus [nr]; C07_inert_meaning ties it to runs).
+   PARTIAL: the same for the operators above the gadgets (dispatch) and that values/raises under a
    true guard coincide with the unguarded run is decided on the real code by the harness (false-guard runs on
    invalid operands; true-guard runs against the same program with the regions inlined), not by a theorem.
    Two genuine exceptions are known findings (zero divisor / non-boolean LinCombBool under a false guard). *)
 From Coq Require Import ZArith List Znumtheory Lia.
 From PySnark.Base Require Import FieldZ.
 From PySnark.Model Require Import Lc Sym Gadgets Api Prog.
-From PySnark.Proofs Require Import Sound Meta FieldOk ProgOK Complete Adv AdvGadgets.
+From PySnark.Proofs Require Import Sound Meta FieldOk ProgOK Complete Adv AdvGadgets NoRaise NoRaiseGadgets NoRaiseGuarded.
 Import ListNotations.
 Open Scope Z_scope.
 
@@ -71,7 +75,68 @@ Proof.
   unfold AdvGadgets.Gok. rewrite Hg. exact Eg.
 Qed.
 
+(* ---- inert: under a false guard (error suppression on) the gadgets do not raise, whatever the operand values ---- *)
+Section C07_inert.
+Variable p : Z.
+Variables (ins : list Z) (ig : bool) (c : cfg) (s : @Gadgets.gst p) (sg : store).
+Hypothesis Hv : NoRaiseGuarded.V ins ig s sg.   (* invariant + inside a guarded region + error suppression on (guard value 0) *)
+Local Notation total := (NoRaise.nr ins ig).
+Local Notation sc := (NoRaiseGadgets.sc s).
+Theorem C07_inert_meaning : forall A (m : Gadgets.G A) Q, total m s sg Q ->
+  forall t, st t = sg -> raised t = None -> forall r s' cs, run m s = (r, s', cs) ->
+  raised (fold_left (Sym.step p ins ig) cs t) = None /\ exists a, r = inl a /\ Q a s' (st (fold_left (Sym.step p ins ig) cs t)).
+Proof. intros A m Q. exact (nr_sound ins ig false A m s sg Q). Qed.
+Theorem C07_no_error_under_a_false_guard_mul : forall x y, sc x -> sc y -> total (mul x y) s sg (fun _ _ _ => True).
+Proof. intros x y Hx Hy. apply (mul_g ins ig x y s sg _ Hv Hx Hy). intros; exact I. Qed.
+Theorem C07_no_error_under_a_false_guard_assert_zero : forall x, sc x -> total (assert_zero x) s sg (fun _ _ _ => True).
+Proof. intros x Hx. apply (assert_zero_g ins ig x s sg _ Hv Hx). intros; exact I. Qed.
+Theorem C07_no_error_under_a_false_guard_to_bits : forall x k, sc x -> total (to_bits x k) s sg (fun _ _ _ => True).
+Proof. intros x k Hx. apply (to_bits_g ins ig x k s sg _ Hv Hx). intros; exact I. Qed.
+Theorem C07_no_error_under_a_false_guard_assert_positive : forall x k, sc x -> total (assert_positive x k) s sg (fun _ _ _ => True).
+Proof. intros x k Hx. apply (assert_positive_g ins ig x k s sg _ Hv Hx). intros; exact I. Qed.
+Theorem C07_no_error_under_a_false_guard_sign_test : forall x k, sc x -> total (check_positive x k) s sg (fun _ _ _ => True).
+Proof. intros x k Hx. apply (check_positive_g ins ig x k s sg _ Hv Hx). intros; exact I. Qed.
+Theorem C07_no_error_under_a_false_guard_lt : forall x y, sc x -> sc y -> total (lt c x y) s sg (fun _ _ _ => True).
+Proof. intros x y Hx Hy. unfold lt. apply (check_positive_g ins ig _ _ s sg _ Hv); [apply sc_subc; apply sc_sub; assumption|]. intros; exact I. Qed.
+Theorem C07_no_error_under_a_false_guard_le : forall x y, sc x -> sc y -> total (le c x y) s sg (fun _ _ _ => True).
+Proof. intros x y Hx Hy. unfold le. apply (check_positive_g ins ig _ _ s sg _ Hv); [apply sc_sub; assumption|]. intros; exact I. Qed.
+Theorem C07_no_error_under_a_false_guard_assert_lt : forall x y, sc x -> sc y -> total (assert_lt c x y) s sg (fun _ _ _ => True).
+Proof.
+  intros x y Hx Hy. unfold assert_lt. apply (assert_rel_g ins ig c _ _ x y s sg _ Hv Hx Hy); [apply sc_subc; apply sc_sub; assumption| |intros; exact I].
+  cbn [bscopedb]. rewrite (proj1 (proj1 (sc_parts _ _) Hx)), (proj1 (proj1 (sc_parts _ _) Hy)). reflexivity.
+Qed.
+Theorem C07_no_error_under_a_false_guard_assert_le : forall x y, sc x -> sc y -> total (assert_le c x y) s sg (fun _ _ _ => True).
+Proof.
+  intros x y Hx Hy. unfold assert_le. apply (assert_rel_g ins ig c _ _ x y s sg _ Hv Hx Hy); [apply sc_sub; assumption| |intros; exact I].
+  cbn [bscopedb]. rewrite (proj1 (proj1 (sc_parts _ _) Hx)), (proj1 (proj1 (sc_parts _ _) Hy)). reflexivity.
+Qed.
+Theorem C07_no_error_under_a_false_guard_assert_eq : forall x y, sc x -> sc y -> total (assert_eq x y) s sg (fun _ _ _ => True).
+Proof. intros x y Hx Hy. apply (assert_eq_g ins ig x y s sg _ Hv Hx Hy). intros; exact I. Qed.
+End C07_inert.
+
+(* non-vacuity of the hypothesis V: the state inside guarded(PrivVal(0)) -- one witness with value 0, which is the guard and
+   LinComb.ONE, error suppression on *)
+Example C07_inert_example :
+  let g := var_slc (p:=65537) (-1) in
+  let s : @Gadgets.gst 65537 := upd_globals (upd_counters (init_gst (p:=65537)) 0 1 10) (Some g) BTrue g None in
+  NoRaiseGuarded.V [0] false s {| pubs := []; privs := [0] |} /\ NoRaiseGadgets.sc s g.
+Proof.
+  cbv zeta. split; [|reflexivity]. split; [|split; [reflexivity|eexists; split; reflexivity]].
+  split; [split; reflexivity|]. split; [reflexivity|]. split; [intros _; reflexivity|reflexivity].
+Qed.
+
 Print Assumptions C07_true_guard_transparent.
+Print Assumptions C07_no_error_under_a_false_guard_mul.
+Print Assumptions C07_no_error_under_a_false_guard_assert_zero.
+Print Assumptions C07_no_error_under_a_false_guard_to_bits.
+Print Assumptions C07_no_error_under_a_false_guard_assert_positive.
+Print Assumptions C07_no_error_under_a_false_guard_sign_test.
+Print Assumptions C07_no_error_under_a_false_guard_lt.
+Print Assumptions C07_no_error_under_a_false_guard_le.
+Print Assumptions C07_no_error_under_a_false_guard_assert_lt.
+Print Assumptions C07_no_error_under_a_false_guard_assert_le.
+Print Assumptions C07_no_error_under_a_false_guard_assert_eq.
+
 Print Assumptions C07_guarded_code_keeps_the_system_satisfied.
 Print Assumptions C07_true_guard_transparent_for_gadgets.
 Print Assumptions C07_false_guard_inert.
